@@ -134,6 +134,12 @@ def case_c01(rep, spec):
             continue
         xn, xbn = np.asarray(x), np.asarray(xb)
         scale = 1 + np.abs(xn).max() + np.abs(yn).max()
+        # the two inverse paths are compared whatever the conditioning (the same computation: equal, or non-finite together)
+        with np.errstate(invalid="ignore"):
+            same = np.allclose(np.asarray(xb2), xbn, rtol=8 * EPS, atol=8 * EPS * scale, equal_nan=True) if kap > KAPMAX else True
+        if not same and not z["bisect"]:
+            rep.violation({**key, "what": "inverse_and_log_det point != inverse"},
+                          f"{z['name']}: inverse gives {xbn}, inverse_and_log_det gives {np.asarray(xb2)} at y = {yn} (ill-conditioned point)")
         if kap > KAPMAX:
             rep.count(1)            # ill-conditioned point: no finite-precision promise
             continue
